@@ -169,3 +169,168 @@ Proof.
   - exact CALC.
   - apply PAIR. exact Ht.
 Qed.
+
+Lemma canonicalize_inv L dcalc w1 w2 calc s :
+  inv L s -> w1 < L -> w2 < L -> fst calc < L -> snd calc < L ->
+  inv L (canonicalize dcalc w1 w2 calc s).
+Proof.
+  intros. apply (canon_post_inv L (Nat.min w1 w2) (Nat.max w1 w2)); [lia|].
+  apply canonicalize_spec; assumption.
+Qed.
+
+(* after canonicalize the state is canonical around the whole requested range *)
+Lemma canonicalize_covers L dcalc w1 w2 calc s :
+  inv L s -> w1 < L -> w2 < L -> fst calc < L -> snd calc < L ->
+  let s' := canonicalize dcalc w1 w2 calc s in
+  (forall k, k < Nat.min w1 w2 -> nth k (fst s') SN = SL)
+  /\ (forall k, Nat.max w1 w2 < k < L -> nth k (fst s') SN = SR).
+Proof.
+  intros Hi H1 H2 H3 H4 s'.
+  destruct (canonicalize_spec L dcalc w1 w2 calc s Hi H1 H2 H3 H4) as [_ (i1 & j1 & _ & A & B & C & HL & HR)].
+  split; intros k Hk; [apply HL | apply HR]; lia.
+Qed.
+
+(* ---- sub-operator application ---- *)
+Lemma submpo_spec L w1 w2 (rev : bool) calc s :
+  inv L s -> w1 < L -> w2 < L -> fst calc < L -> snd calc < L ->
+  let c := if rev then Nat.max w1 w2 else Nat.min w1 w2 in
+  let s' := submpo w1 w2 rev calc s in
+  length (fst s') = L /\ snd s' = RPair c c /\ canonical_around c L (fst s').
+Proof.
+  intros Hi H1 H2 H3 H4 c s'. subst c s'. unfold submpo.
+  set (si := Nat.min w1 w2). set (sf := Nat.max w1 w2).
+  assert (Hsi : si < L) by (unfold si; lia). assert (Hsf : sf < L) by (unfold sf; lia).
+  assert (Hle : si <= sf) by (unfold si, sf; lia).
+  pose proof (canonicalize_spec L false si sf calc s Hi Hsi Hsf H3 H4) as [Hl _].
+  destruct (canonicalize_covers L false si sf calc s Hi Hsi Hsf H3 H4) as [CL CR].
+  rewrite (Nat.min_l si sf) in CL by exact Hle. rewrite (Nat.max_r si sf) in CR by exact Hle.
+  set (s1 := canonicalize false si sf calc s) in *.
+  cbn [fst snd]. unfold region_set. rewrite Hl.
+  split; [apply length_tab|]. split; [destruct rev; reflexivity|].
+  destruct rev; split; intros k Hk; rewrite nth_tab by lia.
+  - (* reversed, k < sf *)
+    destruct (Nat.lt_ge_cases k si) as [Hlt|Hge].
+    + replace (si <=? k) with false by (symmetry; apply Nat.leb_gt; lia). cbn [andb]. apply CL. exact Hlt.
+    + rewrite (proj2 (Nat.leb_le si k) Hge), (proj2 (Nat.leb_le k sf) ltac:(lia)). cbn [andb].
+      rewrite (proj2 (Nat.ltb_lt k sf) Hk). reflexivity.
+  - replace (k <=? sf) with false by (symmetry; apply Nat.leb_gt; lia). rewrite andb_false_r. apply CR. lia.
+  - replace (si <=? k) with false by (symmetry; apply Nat.leb_gt; lia). cbn [andb]. apply CL. exact Hk.
+  - destruct (Nat.le_gt_cases k sf) as [Hle2|Hgt].
+    + rewrite (proj2 (Nat.leb_le si k) ltac:(lia)), (proj2 (Nat.leb_le k sf) Hle2). cbn [andb].
+      rewrite (proj2 (Nat.ltb_lt si k) ltac:(lia)). reflexivity.
+    + replace (k <=? sf) with false by (symmetry; apply Nat.leb_gt; lia). rewrite andb_false_r. apply CR. lia.
+Qed.
+
+Lemma submpo_inv L w1 w2 (rev : bool) calc s :
+  inv L s -> w1 < L -> w2 < L -> fst calc < L -> snd calc < L -> inv L (submpo w1 w2 rev calc s).
+Proof.
+  intros Hi H1 H2 H3 H4.
+  destruct (submpo_spec L w1 w2 rev calc s Hi H1 H2 H3 H4) as (Hl & Hr & HL & HR).
+  split; [exact Hl|]. rewrite Hr. cbn [truthful]. rewrite Nat.min_id, Nat.max_id.
+  assert ((if rev then Nat.max w1 w2 else Nat.min w1 w2) < L) by (destruct rev; lia).
+  repeat split; assumption.
+Qed.
+
+(* the direction matters: after a REVERSED sweep over a region of at least two sites, the
+   record of the forward sweep, (si, si), claims isometries that nothing guarantees *)
+Lemma submpo_reverse_first_site_record_false L w1 w2 calc s :
+  inv L s -> w1 < L -> w2 < L -> w1 <> w2 -> fst calc < L -> snd calc < L ->
+  ~ truthful L (fst (submpo w1 w2 true calc s)) (RPair (Nat.min w1 w2) (Nat.min w1 w2)).
+Proof.
+  intros Hi H1 H2 Hne H3 H4 (_ & _ & _ & TR).
+  destruct (submpo_spec L w1 w2 true calc s Hi H1 H2 H3 H4) as (Hl & _ & HL & _).
+  cbn [fst snd] in *. rewrite Nat.max_id in TR.
+  set (si := Nat.min w1 w2) in *. set (sf := Nat.max w1 w2) in *.
+  assert (Hlt : si < sf) by (unfold si, sf; lia).
+  assert (Hk : si < S si < L) by (unfold sf in Hlt; lia).
+  specialize (TR (S si) Hk).
+  destruct (Nat.eq_dec (S si) sf) as [E|E].
+  - (* the neighbour is the centre: no guarantee at all *)
+    revert TR. unfold submpo. fold si sf. cbn [fst]. unfold region_set.
+    pose proof (canonicalize_spec L false si sf calc s Hi ltac:(unfold si; lia) ltac:(unfold sf; lia) H3 H4) as [Hl1 _].
+    rewrite Hl1. rewrite nth_tab by lia.
+    rewrite (proj2 (Nat.leb_le si (S si)) ltac:(lia)), (proj2 (Nat.leb_le (S si) sf) ltac:(lia)). cbn [andb].
+    replace (S si <? sf) with false by (symmetry; apply Nat.ltb_ge; lia). discriminate.
+  - rewrite (HL (S si)) in TR by lia. discriminate.
+Qed.
+
+(* ---- expectation values ---- *)
+Lemma Forall_insert_by (P : nat * nat -> Prop) key x l : P x -> Forall P l -> Forall P (insert_by key x l).
+Proof.
+  intros Hx Hl. induction Hl as [|y t Hy Ht IH]; cbn; [constructor; [exact Hx | constructor]|].
+  destruct (key x <=? key y); repeat constructor; assumption.
+Qed.
+Lemma Forall_isort (P : nat * nat -> Prop) key l : Forall P l -> Forall P (isort key l).
+Proof. induction 1; cbn; [constructor | apply Forall_insert_by; assumption]. Qed.
+
+Definition site_ok (L : nat) (w : nat * nat) : Prop := fst w < L /\ snd w < L.
+
+Lemma fold_canon_inv L calc : fst calc < L -> snd calc < L -> forall ws s,
+  Forall (site_ok L) ws -> inv L s ->
+  inv L (fold_left (fun s w => canonicalize true (fst w) (snd w) calc s) ws s).
+Proof.
+  intros H3 H4. induction ws as [|w t IH]; intros s Hw Hi; cbn [fold_left]; [exact Hi|].
+  inversion Hw as [|? ? [Ha Hb] Ht]; subst. apply IH; [exact Ht|].
+  apply canonicalize_inv; assumption.
+Qed.
+
+Lemma expec_inplace_inv L terms calc s :
+  inv L s -> Forall (site_ok L) terms -> fst calc < L -> snd calc < L -> inv L (expec_inplace terms calc s).
+Proof.
+  intros Hi Ht H3 H4. unfold expec_inplace. apply fold_canon_inv; try assumption.
+  unfold term_order. destruct (snd s); apply Forall_isort; exact Ht.
+Qed.
+
+(* ---- every history ---- *)
+Definition op_ok (L : nat) (o : op) : Prop :=
+  match o with
+  | OCanon w1 w2 c => w1 < L /\ w2 < L /\ fst c < L /\ snd c < L
+  | OSub w1 w2 _ c => w1 < L /\ w2 < L /\ fst c < L /\ snd c < L
+  | OExpCopy => True
+  | OExpIn terms c => Forall (site_ok L) terms /\ fst c < L /\ snd c < L
+  end.
+
+Lemma apply_op_inv L o s : inv L s -> op_ok L o -> inv L (apply_op o s).
+Proof.
+  intros Hi Ho. destruct o as [w1 w2 c|w1 w2 rev c| |terms c]; cbn [apply_op op_ok] in *.
+  - destruct Ho as (A & B & C & D). apply canonicalize_inv; assumption.
+  - destruct Ho as (A & B & C & D). apply submpo_inv; assumption.
+  - exact Hi.
+  - destruct Ho as (A & C & D). apply expec_inplace_inv; assumption.
+Qed.
+
+Theorem record_truthful_every_history L : forall ops s,
+  inv L s -> Forall (op_ok L) ops -> inv L (run_ops ops s).
+Proof.
+  induction ops as [|o t IH]; intros s Hi Ho; [exact Hi|].
+  inversion Ho; subst. unfold run_ops. cbn [fold_left]. apply IH; [|assumption].
+  apply apply_op_inv; assumption.
+Qed.
+
+(* a state about which nothing is guaranteed admits only the trivial record: writing the moved
+   centre of a COPY into the caller's record (inplace=False without copying `info`) is false *)
+Lemma generic_only_trivial_record L a b :
+  truthful L (generic L) (RPair a b) -> Nat.min a b = 0 /\ L - 1 <= Nat.max a b.
+Proof.
+  intros (Ha & Hb & TL & TR). unfold generic in *. split.
+  - destruct (Nat.min a b) eqn:E; [reflexivity|]. specialize (TL 0 ltac:(lia)).
+    destruct L; [lia|]. cbn in TL. discriminate.
+  - destruct (Nat.le_gt_cases (L - 1) (Nat.max a b)) as [H|H]; [exact H|].
+    specialize (TR (L - 1) ltac:(lia)). rewrite nth_repeat in TR. discriminate.
+Qed.
+
+(* the states the observed histories start from satisfy the invariant *)
+Definition rcd_in_range (L : nat) (r : rcd) : Prop :=
+  match r with RPair a b => a < L /\ b < L | _ => True end.
+
+Lemma init_state_inv L r : rcd_in_range L r -> inv L (init_state L r).
+Proof.
+  intros Hr. assert (Hg : length (generic L) = L) by apply repeat_length.
+  destruct r as [| | |a b]; cbn [init_state]; try (split; [exact Hg | exact I]).
+  destruct Hr as [Ha Hb]. destruct (assume_spec a b (generic L) L Hg Ha Hb) as (A0 & A1 & A2).
+  split; [exact A0|]. cbn [fst snd truthful]. repeat split; assumption.
+Qed.
+
+Theorem record_truthful_from_any_start L r ops :
+  rcd_in_range L r -> Forall (op_ok L) ops -> inv L (run_ops ops (init_state L r)).
+Proof. intros Hr Ho. apply record_truthful_every_history; [apply init_state_inv; exact Hr | exact Ho]. Qed.
